@@ -133,17 +133,21 @@ func ruleImageMethods(c *Ctx) {
 				continue
 			}
 			n := NewNormer(c.P)
-			n.MaxInline = 0
 			n.BindParams(fn, "c", "x", "y")
 			found := false
-			eachInstr(fn, func(b *ssa.BasicBlock, ins ssa.Instruction) {
-				call, ok := ins.(*ssa.Call)
+			// the bit-list access itself, in this function or in an unexported helper it delegates to; an
+			// index computed by a helper is read through it
+			c.P.deepEach(fn, 2, func(s DeepSite) {
+				call, ok := s.Ins.(*ssa.Call)
 				if !ok || calleeOf(call) == nil {
 					return
 				}
-				if nm := calleeOf(call).Name(); nm == "GetBit" || nm == "SetBit" {
+				if nm := c.P.FuncName(calleeOf(call)); nm == "utils.(*BitList).GetBit" || nm == "utils.(*BitList).SetBit" {
 					found = true
+					saved := n.Ctx
+					n.Ctx = s.Path
 					c.expectPoly(R2, name+"/module-index", call.Pos(), n, call.Common().Args[1], pr.want)
+					n.Ctx = saved
 				}
 			})
 			if !found {
